@@ -468,11 +468,36 @@ def _chain_root(st):
     return root
 
 
+def _chain_arms(root):
+    arms = []
+    cur = root
+    while True:
+        arms.append(cur.body)
+        if len(cur.orelse) == 1 and isinstance(cur.orelse[0], ast.If):
+            cur = cur.orelse[0]
+        else:
+            if cur.orelse:
+                arms.append(cur.orelse)
+            break
+    return arms
+
+
 def _same_chain(dsites):
-    roots = {id(_chain_root(d)) for d in dsites}
-    if len(roots) != 1 or None in {_chain_root(d) for d in dsites}:
+    """every binding is an arm of one if/elif chain and every arm that can fall through binds the name (so the only
+    binding-free way through the chain is 'no arm taken' of an else-less dispatch on a format / version value)"""
+    rootset = {id(_chain_root(d)) for d in dsites}
+    if len(rootset) != 1 or None in {_chain_root(d) for d in dsites}:
         return False
-    return len(dsites) >= 2
+    root = _chain_root(dsites[0])
+    arms = _chain_arms(root)
+    if len(arms) < 2:
+        return False
+    for arm in arms:
+        has_def = any(any(d is x for x in ast.walk(st)) for st in arm for d in dsites)
+        exits = bool(arm) and isinstance(arm[-1], (ast.Raise, ast.Return, ast.Continue, ast.Break))
+        if not has_def and not exits:
+            return False
+    return True
 
 
 def unbound(ctx, repo, scope=("",), rule="UNBOUND", _self=False):
@@ -737,9 +762,11 @@ def cache_key(ctx, repo, scope=("",), rule="CACHE-KEY", _self=False):
             a = f.node.args
             params = [x.arg for x in a.posonlyargs + a.args + a.kwonlyargs]
             total += 1
-            keynames = set()
+            keynames = None
             for n in [st.targets[0] for st in stores] + loads:
-                keynames |= {x.id for x in ast.walk(n.slice) if isinstance(x, ast.Name)}
+                k_ = {x.id for x in ast.walk(n.slice) if isinstance(x, ast.Name)}
+                keynames = k_ if keynames is None else (keynames & k_)  # a name must be in EVERY key expression
+            keynames = keynames or set()
             # parameters read outside the key expressions
             carriers = set(keynames)
             changed = True
